@@ -81,7 +81,7 @@ impl Buildpack for Vbp {
                 let mut md = toml::Table::new();
                 for (k, v) in per_process_order(vec![("zulu", toml::Value::Integer(1)), ("alpha", toml::Value::Integer(2)), ("mike", toml::Value::Table(inner)), ("kilo", toml::Value::Boolean(true)), ("echo", toml::Value::String("e".into()))]) { md.insert(k.into(), v); }
                 req.metadata(md).unwrap();
-                DetectResultBuilder::pass().build_plan(BuildPlanBuilder::new().provides("vbp").requires(req).or().provides("other").build()).build()
+                DetectResultBuilder::pass().build_plan(BuildPlanBuilder::new().provides("vbp").provides("second").provides("vbp").provides("third").requires(req).or().provides("other").build()).build()
             }
             "fail" => DetectResultBuilder::fail().build(),
             _ => Err(libcnb::Error::BuildpackError(VErr("scripted detect error".into()))),
